@@ -118,7 +118,7 @@ def strict_runs(ctx):
 
     def one(job):
         key, cfg, name, ov = job
-        return key, ctx.tlc("Admission", cfg, timeout=300, deadlock=False, name=name, overrides=ov, workers=2, heap="1g")
+        return key, ctx.tlc("Admission", cfg, timeout=900, deadlock=False, name=name, overrides=ov, workers=2, heap="1g")
 
     with ThreadPoolExecutor(max_workers=5) as ex:
         futs = []
@@ -158,7 +158,7 @@ def run(ctx):
     samples = []
     with open(size_path, "w") as fsz, open(spam_path, "w") as fsp:
         for name, ov in scopes(ctx.tier):
-            res = ctx.tlc_expect_ok("Admission", cfg, timeout=1500, deadlock=False, overrides=ov, name="Admission/" + name)
+            res = ctx.tlc_expect_ok("Admission", cfg, timeout=4500, deadlock=False, overrides=ov, name="Admission/" + name)
             cases = res.printed
             res.printed = None
             res.out = ""
@@ -256,13 +256,13 @@ def run(ctx):
     # ---- real code
     out_a = os.path.join(ctx.scratch, "c20_antispam_out.json")
     bin_a = ctx.go_test_build("pipeline/antispam")
-    rc, txt = ctx.run_bin(bin_a, "^TestVerifC20$", env={"VERIF_CASES": spam_path, "VERIF_OUT": out_a}, timeout=2400)
+    rc, txt = ctx.run_bin(bin_a, "^TestVerifC20$", env={"VERIF_CASES": spam_path, "VERIF_OUT": out_a}, timeout=7200)
     if rc != 0 or not os.path.exists(out_a):
         raise vlib.Infra("C20 antispam harness failed rc=%s:\n%s" % (rc, txt[-3000:]))
     ra = json.load(open(out_a))
     out_p = os.path.join(ctx.scratch, "c20_pipeline_out.json")
     bin_p = ctx.go_test_build("pipeline")
-    rc, txt = ctx.run_bin(bin_p, "^TestVerifC20$", env={"VERIF_CASES": size_path, "VERIF_OUT": out_p}, timeout=2400)
+    rc, txt = ctx.run_bin(bin_p, "^TestVerifC20$", env={"VERIF_CASES": size_path, "VERIF_OUT": out_p}, timeout=7200)
     if rc != 0 or not os.path.exists(out_p):
         raise vlib.Infra("C20 pipeline harness failed rc=%s:\n%s" % (rc, txt[-3000:]))
     rp = json.load(open(out_p))
